@@ -786,9 +786,9 @@ raise ValueError."""
                     unaliased = target
             if unaliased == ast.TYPE_UINT64:
                 value = str(symbol.const_int % 2 ** 64)
-            elif unaliased == ast.TYPE_UINT32:
+            elif unaliased in (ast.TYPE_UINT32, ast.TYPE_UINT, ast.TYPE_UNICHAR):
                 value = str(symbol.const_int % 2 ** 32)
-            elif unaliased == ast.TYPE_UINT16:
+            elif unaliased in (ast.TYPE_UINT16, ast.TYPE_USHORT):
                 value = str(symbol.const_int % 2 ** 16)
             elif unaliased == ast.TYPE_UINT8:
                 value = str(symbol.const_int % 2 ** 8)
